@@ -39,6 +39,10 @@ def curated():
         ranges=['S!B1:D1'])
     add('cse2', S({'A1': 1, 'A2': 2, 'D1:D2': {'array': '=A1:A2*2'}, 'B1:B2': {'array': '=D1:D2+1'}, 'F1': '=SUM(B1:B2)'}),
         ranges=['S!B1:B2', 'S!D1:D2'], tags=['cse'])
+    # two array formulas side by side whose texts start alike; ranges that span both
+    add('cse_twins', S({'A1': 1, 'B1': 2, 'D1:E1': {'array': '=A1:B1*2'}, 'D2:E2': {'array': '=A1:B1*20'},
+                        'F1': '=SUM(D1:E2)', 'F2': '=D2+E1'}),
+        ranges=['S!D1:E2', 'S!D1:E1', 'S!D2:E2', 'S!D1:D2'], tags=['cse'], inputs=['S!A1', 'S!B1'])
     add('two_sheets', {'sheets': {'S': {'A1': "='Sheet 1'!A1+1", 'B1': "=SUM('Sheet 1'!A1:A2)"},
                                   'Sheet 1': {'A1': 5, 'A2': 6}}, 'active': 'S'},
         ranges=['Sheet 1!A1:A2'])
